@@ -140,6 +140,10 @@ pub struct Cfg {
     /// an extra client task: send a request (parked if the concurrency limit is reached), reset it at once, then wait
     /// for readiness on the same SendRequest
     pub c_parked_reset_then_ready: bool,
+    /// C19 on T1: both connection tasks leave a snapshot of their stream store (verification hook) whenever their connection
+    /// returns Pending, and the client's SendRequest is parked in the simulator so that the connection stays open until the
+    /// judge has looked at what is retained - and then lets it go to see the idle close
+    pub probe: bool,
 }
 
 impl Default for Cfg {
@@ -171,6 +175,7 @@ impl Default for Cfg {
             s_drop_conn: false,
             abrupt_after: None,
             c_parked_reset_then_ready: false,
+            probe: false,
         }
     }
 }
@@ -748,6 +753,7 @@ impl T1 {
             let c_set_window = sc.cfg.c_set_window;
             let c_drop_conn = sc.cfg.c_drop_conn;
             let parked_reset = sc.cfg.c_parked_reset_then_ready;
+            let probe = sc.cfg.probe;
             let sh_c = sh.clone();
             spawner.spawn("connC", async move {
                 let (sr, mut conn) = match b.handshake::<_, Bytes>(io).await {
@@ -804,12 +810,25 @@ impl T1 {
                         });
                     }
                 }
-                let keeper = if keep { Some(sr) } else { drop(sr); None };
+                let keeper = if probe {
+                    sh_c.lock().unwrap().keeper = Some(Box::new(sr));
+                    None
+                } else if keep {
+                    Some(sr)
+                } else {
+                    drop(sr);
+                    None
+                };
                 let r = poll_fn(|cx| {
                     if c_drop_conn && sh_c.lock().unwrap().choose(tag::FAULT, 2) == 1 {
                         return Poll::Ready(None);
                     }
-                    Pin::new(&mut conn).poll(cx).map(Some)
+                    let p = Pin::new(&mut conn).poll(cx).map(Some);
+                    if probe && p.is_pending() && sh_c.lock().unwrap().want_snaps {
+                        let s = conn.verif_snapshot();
+                        sh_c.lock().unwrap().snaps[0] = Some(s);
+                    }
+                    p
                 })
                 .await;
                 log.conn(Side::Client, match r {
@@ -833,6 +852,7 @@ impl T1 {
             let s_target_window = sc.cfg.s_target_window;
             let s_drop_conn = sc.cfg.s_drop_conn;
             let abrupt_after = sc.cfg.abrupt_after;
+            let probe = sc.cfg.probe;
             let sh_s = sh.clone();
             spawner.spawn("connS", async move {
                 let mut conn = match b.handshake::<_, Bytes>(io).await {
@@ -848,7 +868,12 @@ impl T1 {
                         if s_drop_conn && sh_s.lock().unwrap().choose(tag::FAULT, 2) == 1 {
                             return Poll::Ready(None);
                         }
-                        conn.poll_accept(cx).map(Some)
+                        let p = conn.poll_accept(cx).map(Some);
+                        if probe && p.is_pending() && sh_s.lock().unwrap().want_snaps {
+                            let s = conn.verif_snapshot();
+                            sh_s.lock().unwrap().snaps[1] = Some(s);
+                        }
+                        p
                     })
                     .await;
                     let Some(next) = next else {
